@@ -149,7 +149,12 @@ pub fn parse_u64_digits<'a, Iter, const FORMAT: u128>(
     for &c in iter {
         let digit = char_to_valid_digit_const(c, radix as u32);
         if !*overflowed {
-            let result = mantissa.checked_mul(radix).and_then(|x| x.checked_add(digit as u64));
+            // Only the first `step` digits are significant: the exponent of the
+            // number was calculated for exactly that many, even if more would fit.
+            let result = match *step {
+                0 => None,
+                _ => mantissa.checked_mul(radix).and_then(|x| x.checked_add(digit as u64)),
+            };
             if let Some(mant) = result {
                 *mantissa = mant;
             } else {
